@@ -64,3 +64,25 @@ def make_declarator(nptr):
 
 
 UNITS += [make_declarator(n) for n in (0, 1, 2, 3)]
+
+
+# ---------------------------------------------------------------------------------------------------------
+# Declaration.gen_attrs: every attribute that is SET (value is not None -- 0, 0.0, '' and False are values) and is neither
+# internal ('_...'), an annotation that is rendered elsewhere, nor explicitly skipped, is rendered as +name or +name(value):
+# parse(gen_decl(d)) keeps it.
+gen_attrs = Unit(
+    prop="C09", name="Declaration.gen_attrs", target="shroud/declast.py::Declaration.gen_attrs",
+    params={"self": ("obj", "Declaration", {"_skip_annotations": ("clist", ("const", "template"))}),
+            "attrs": "ddict[py]", "decl": "list[str]", "skip": "dict[bool]"},
+    init="n0 = len(decl)\nshown = 0\n",
+    loops={0: {"index": "ka", "head": "d0 = len(decl)\n",
+               "end": "rendered_ = len(attr) > 0 and attr[0] != '_' and attr != 'template' and not (attr in skip) and attrs[attr] is not None\n"
+                      "assert implies(rendered_, len(decl) == d0 + 3 and decl[d0 + 1] == '+')\n"
+                      "assert implies(rendered_ and attrs[attr] is True, decl[d0 + 2] == attr)\n"
+                      "assert implies(not rendered_, len(decl) == d0)\n",
+               "inv": ["len(decl) >= n0"]}},
+    requires=["all(len(k) > 0 for k in attrs)"] if False else [],
+    ensures=["len(decl) >= n0"],
+    raises=[],
+)
+UNITS += [gen_attrs]
